@@ -66,15 +66,17 @@ def p2(ctx, ss):
     n = 0
     for name, (params, tree, opts) in gf.rule_defs.items():
         name = str(name)
+        if name.startswith("_"):
+            continue        # inline rules are judged inside the rules that use them (gf.rule_regex substitutes them)
         alpha = SymAlphabet()
-        base = ebnf_regex(tree, alpha)
+        base = gf.rule_regex(name, alpha)
         used = [t for t in LAYOUT_T if f"T:{t}" in alpha.map]
         if not used:
             continue
         for t in used:
             n += 1
             letter = alpha.map[f"T:{t}"]
-            rep = ebnf_regex(tree, alpha, {f"T:{t}": f"(?:{letter})+"})
+            rep = gf.rule_regex(name, alpha, {f"T:{t}": f"(?:{letter})+"})
             wit = includes(Rx(base), Rx(rep))
             k = f"{G}:{name}:{t}"
             if wit is None:
@@ -92,7 +94,7 @@ def p2(ctx, ss):
         if name not in gf.rule_defs:
             raise AnchorMissing(f"rule {name} not found")
         alpha = SymAlphabet()
-        ebnf_regex(gf.rule_defs[name][1], alpha)
+        gf.rule_regex(name, alpha)
         for t in ts:
             k = f"{G}:{name}:{t}:present"
             if f"T:{t}" in alpha.map:
@@ -102,7 +104,7 @@ def p2(ctx, ss):
     # a parameter list may be wrapped over lines and separated by commas anywhere after its first item
     alpha = SymAlphabet()
     v, l, nl, c = alpha.letter("N:value"), alpha.letter("T:LABEL"), alpha.letter("T:_NEWLINE"), alpha.letter("T:_COMMA")
-    rx = ebnf_regex(gf.rule_defs["model_options"][1], alpha)
+    rx = gf.rule_regex("model_options", alpha)
     wit = includes(Rx(rx), Rx(f"(?:{v}|{l})(?:{v}|{l}|{nl}|{c})*"))
     if wit is None:
         ctx.holds("C02.2", f"{G}:model_options:wrapping", GP, "model_options ⊇ item (item | _NEWLINE | _COMMA)*", 2)
@@ -183,7 +185,7 @@ def p5(ctx, ss):
         raise AnchorMissing("rule start not found")
     alpha = SymAlphabet()
     n, l, e = alpha.letter("T:_NEWLINE"), alpha.letter("N:line"), alpha.letter('L:"End"')
-    rx = ebnf_regex(gf.rule_defs["start"][1], alpha)
+    rx = gf.rule_regex("start", alpha)
     ref = f"{n}*(?:{l}{n}+)*(?:{e}{n}+)?"
     wit = includes(Rx(rx), Rx(ref))
     inv = {v: kk for kk, v in alpha.map.items()}
